@@ -465,6 +465,9 @@ def _sample_post(fluxes):
         me, s0, s1 = E["self"], E.s0, E.s1
         T, ns0, n = at(s0, me, "thinning").t, at(s0, me, "n_samples").t, E["n"].t
         A = samples_array(n, at(s0, me, "warmup").t)
+        if E.role != "goal":
+            # at a call site: what the caller can use (the frame's construction is a ghost trace of the body)
+            return z3.And(at(s1, me, "n_samples").t == ns0 + T * n, rows_ok(s0, me, s1, ns0, T, n), only_rows(s1, n))
         cs, data = frame_columns(E, fluxes)
         if data is not None:
             cs.append(data == (flux_columns(A, at(s0, me, "fwd_idx").t, at(s0, me, "rev_idx").t) if fluxes else A))
@@ -879,6 +882,11 @@ def _osample_post(fluxes):
         me, s0, s1 = E["self"], E.s0, E.s1
         T, ns0, n, P = at(s0, me, "thinning").t, at(s0, me, "n_samples").t, E["n"].t, at(s0, me, "processes").t
         tr = _trace(s1, "pool_trace")
+        if E.role != "goal":
+            # at a call site: the number of samples generated (c = n_process, existentially: a fresh constant)
+            c = fresh("n_process", z3.IntSort())
+            total = z3.If(P > 1, c * P, n)
+            return z3.And(z3.Implies(P > 1, z3.And(c * P >= n, (c - 1) * P < n)), at(s1, me, "n_samples").t == ns0 + total)
         cs, data = frame_columns(E, fluxes)
         if data is None:
             return z3.And(*cs)
@@ -960,3 +968,113 @@ REG.add(Contract(MO, "OptGPSampler.sample", "C14", [("self", _optgp_self()), ("n
                  key="OptGPSampler.sample",
                  note="n >= 0, processes >= 1, thinning >= 1, nproj >= 1, n_samples >= 0; the pool by the assumed ordered-map contract Pool.map; "
                       "n / processes and np.ceil exact"))
+
+
+# ================================================================ sampling.sample (dispatch)
+REG.add(Contract(MH, "HRSampler.__init__", "C16", [("self", TNone())], [Case("any")], assumed=True, key="HRSampler.__init__@samplers",
+                 note="OptGPSampler(model, processes=, thinning=, seed=) / ACHRSampler(model, thinning=, seed=): a new sampler whose `thinning` "
+                      "(and `processes`) are the arguments, n_samples = 0, nproj >= 1, whose `model` is a private copy of the model with a "
+                      "well-formed reaction DictList; ValueError / TypeError for models that cannot be sampled"))
+
+
+def d_global(eng, name):
+    if name in ("OptGPSampler", "ACHRSampler"):
+        return VFunc("abstract", "new:" + name)
+    return None
+
+
+def d_call_abstract(eng, st, f, pos, kw):
+    if f.a.startswith("new:"):
+        cls = f.a[4:]
+        from pyvc.apply import ASSUMED_USED
+        ASSUMED_USED["HRSampler.__init__@samplers"] = REG.get("HRSampler.__init__@samplers").note
+        st, me = sampler_t(cls).make(st, fresh_name("new_sampler"))
+        th = kw.get("thinning")
+        if not isinstance(th, VInt):
+            raise Unsupported("sampler constructor without an integer thinning")
+        upd = {"attr:thinning": th, "attr:n_samples": VInt(0)}
+        if cls == "OptGPSampler":
+            pr = kw.get("processes")
+            if not isinstance(pr, VInt):
+                raise Unsupported("OptGPSampler without an integer processes")
+            upd["attr:processes"] = pr
+        st = st.updobj(me.oid, **upd)
+        st = st.assume(at(st, me, "nproj").t >= 1, WF(Env({}, st, eng=eng), st, at(st, me_model(st, me), "reactions")))
+        st = st.setghost("ctor_calls", _trace(st, "ctor_calls") + ({"cls": cls, "pos": tuple(pos), "kw": dict(kw), "res": me},))
+        return [("ok", st, me), ("raise", st, VExc("ValueError")), ("raise", st, VExc("TypeError"))]
+    return None
+
+
+def d_call_method(eng, st, recv, name, pos, kw):
+    if isinstance(recv, VObj) and recv.cls in ("ACHRSampler", "OptGPSampler") and name == "sample":
+        out = []
+        for k, s, v in eng.apply_contract(st, REG.get(recv.cls + ".sample"), [recv] + list(pos), kw):
+            out.append((k, s.setghost("sample_calls", _trace(s, "sample_calls") + ({"recv": recv, "pos": tuple(pos), "kw": dict(kw), "res": v},)), v))
+        return out
+    return None
+
+
+HOOKS_D = chain_hooks({"global": d_global, "call_abstract": d_call_abstract, "call_method": d_call_method}, HOOKS_O)
+
+
+def _disp_post(which):
+    def post(E):
+        s0, s1 = E.s0, E.s1
+        ctor, smp, dfs = _trace(s1, "ctor_calls"), _trace(s1, "sample_calls"), _trace(s1, "df_calls")
+        if len(ctor) != 1 or len(smp) != 1 or len(dfs) != 1:
+            return z3.BoolVal(False)
+        c, sc, df = ctor[0], smp[0], dfs[0]
+        want_kw = {"thinning": E["thinning"], "seed": E["seed"]}
+        if which == "optgp":
+            want_kw["processes"] = E["processes"]                      # processes passed on (OptGP only)
+        ok = (c["cls"] == {"optgp": "OptGPSampler", "achr": "ACHRSampler"}[which] and len(c["pos"]) == 1 and c["pos"][0] is E["model"]
+              and set(c["kw"]) == set(want_kw) and all(c["kw"][k] is v for k, v in want_kw.items())
+              and sc["recv"] is c["res"] and len(sc["pos"]) == 1 and sc["pos"][0] is E["n"] and not sc["kw"]       # sampler.sample(n)
+              and df["res"] is E.res and df["npos"] == 0 and df["data"] is sc["res"] and not df["extra"] and isinstance(df["columns"], VObj))
+        cs = [z3.BoolVal(bool(ok))]
+        if ok:
+            rec = df["state"].objs[df["columns"].oid]
+            n_r, e_r = L(s0, at(s0, E["model"], "reactions"))
+            ids = E.eng.heap_arr(s0, "_id")
+            j = qv("dj")
+            cs.append(z3.And(rec["len"] == n_r, FA([j], z3.Implies(z3.And(0 <= j, j < n_r), rec["elem"][j] == ids[e_r[j]]),
+                                                    patterns=[rec["elem"][j]])))
+        return z3.And(*cs)
+    return post
+
+
+def _disp_cases():
+    out = []
+    for which in ("optgp", "achr"):
+        c = Case(which, requires=lambda E, which=which: E["method"].t == id_lit(which), ensures=_disp_post(which))
+        c.may_raise = "Exception"               # the constructor (ValueError / TypeError) or the walk (RuntimeError) gives up
+        # ... and only they: an exception leaves only after the right constructor was called (never the dispatch's own ValueError)
+        c.ensures_on_raise = lambda E, which=which: z3.BoolVal(
+            E.exc in ("ValueError", "TypeError", "RuntimeError") and len(_trace(E.s1, "ctor_calls")) == 1
+            and _trace(E.s1, "ctor_calls")[0]["cls"] == {"optgp": "OptGPSampler", "achr": "ACHRSampler"}[which])
+        c.modifies_on_raise = lambda E: _disp_mod(E)
+        out.append(c)
+    out.append(Case("other", requires=lambda E: z3.And(E["method"].t != id_lit("optgp"), E["method"].t != id_lit("achr")),
+                    ensures=lambda E: z3.BoolVal(not _trace(E.s1, "ctor_calls")), raises="ValueError"))
+    return out
+
+
+def _disp_mod(E):
+    return [("ghost", k, lambda st: ()) for k in ("ctor_calls", "sample_calls", "df_calls", "pool_trace", "chain_calls", "step_calls",
+                                                   "_reproject_calls", "_random_point_calls")] + \
+        [("ghost", k, lambda st: None) for k in ("vstack", "isum", "rows_of", "rng_bad", "rng_drawn", ("global", "sampler"))] + \
+        [("ghost", "pts", lambda st: fresh("pts", IntNP)), ("ghost", "rows", lambda st: fresh("rows", IntNP)),
+         ("ghost", "row_it", lambda st: fresh("row_it", IntInt)), ("ghost", "written", lambda st: fresh("written", IntBool)),
+         ("ghost", "chain_count", lambda st: fresh("chain_count", z3.IntSort())), ("ghost", "rng_seed", lambda st: fresh("rng_seed", z3.IntSort()))]
+
+
+def _disp_pre(E):
+    return z3.And(WF(E, E.s0, at(E.s0, E["model"], "reactions")), E["n"].t >= 0, E["thinning"].t >= 1, E["processes"].t >= 1)
+
+
+from pyvc.values import id_lit  # noqa
+_seed_t = TInt()
+REG.add(Contract(MS, "sample", "C16", [("model", _model_t()), ("n", TInt()), ("method", TStr()), ("thinning", TInt()), ("processes", TInt()),
+                                       ("seed", _seed_t)], _disp_cases(), pre=_disp_pre, modifies=_disp_mod, result=_res_np("DataFrame"),
+                 key="sampling.sample", note="n >= 0, thinning >= 1, processes >= 1; the sampler constructors by the assumed contract "
+                                             "HRSampler.__init__@samplers"))
